@@ -1767,7 +1767,14 @@ class Interp:
             return self.call_fn(f0.path, None, args, n, fr)
         if isinstance(f0, PhiV):
             # e.g. `let f = if c { A::x } else { A::y }; f(arg)`
-            return PhiV([(c, self.call_value(x, args, n, fr)) for c, x in f0.alts])
+            alts_ = []
+            for c, x in f0.alts:
+                self.ctx.append(("cond", c))        # each alternative is called exactly when it was selected
+                try:
+                    alts_.append((c, self.call_value(x, args, n, fr)))
+                finally:
+                    self.ctx.pop()
+            return PhiV(alts_)
         self.calls.append(("<indirect:%s>" % f0.r(), args, n, self.cur_cond(), self.cur_fn()))
         # a closure-typed parameter called with a writer: opaque emission
         for a in args:
